@@ -74,3 +74,43 @@ def mat_from_spec(sy, mat_polys):
     cols = len(mat_polys[0]) if rows else 0
     f = compile_polys(sy, [p for r in mat_polys for p in r])
     return lambda v: np.array(f(v), float).reshape(rows, cols)
+
+
+def compile_ext(sy, polys, n2):
+    """polys over the EXTENDED symbol table of spec/SensLayout.tla (definition symbols, then n2 - sy.n extra
+    symbols) -> f(v, e): v values of the plain symbols, e values of the extra symbols (0-based: symbol sy.n+1+j)"""
+    nplain = sy.n - len(sy.atoms)
+    names = ["v[%d]" % j for j in range(nplain)] + ["a%d" % k for k in range(len(sy.atoms))] + \
+            ["e[%d]" % j for j in range(n2 - sy.n)]
+    lines = ["def f(v, e):"]
+    for k, a in enumerate(sy.atoms):
+        arg = _poly_src(a["arg"], names)
+        if a["kind"] == "H":
+            lines.append("    a%d = 1.0/(1.0 + (%s))" % (k, arg))
+        elif a["kind"] == "E":
+            lines.append("    a%d = _exp(-(%s))" % (k, arg))
+        elif a["kind"] == "C":
+            lines.append("    a%d = _cos(%s)" % (k, arg))
+        elif a["kind"] == "S":
+            lines.append("    a%d = _sin(%s)" % (k, arg))
+    lines.append("    return [" + ", ".join(_poly_src(p, names) for p in polys) + "]")
+    ns = {"_exp": math.exp, "_cos": math.cos, "_sin": math.sin}
+    exec("\n".join(lines), ns)
+    return ns["f"]
+
+
+def rhs_aug_from_spec(sy, aug_polys, var_syms, n2, theta):
+    """z' = F(t, z) for an augmented system of the specification: aug_polys[q] is the right-hand side of the
+    q-th entry, var_syms[q] the (1-based) symbol that entry stands for (states first)."""
+    f = compile_ext(sy, aug_polys, n2)
+    th = [float(v) for v in theta]
+    pad = [0.0] * sy.nd
+    ext = [s - sy.n - 1 for s in var_syms[sy.ns:]]
+    nex = n2 - sy.n
+
+    def rhs(t, z):
+        e = [0.0] * nex
+        for q, j in enumerate(ext):
+            e[j] = z[sy.ns + q]
+        return f(list(z[:sy.ns]) + [t] + th + pad, e)
+    return rhs
